@@ -345,7 +345,8 @@ def handle_layer_failure(failure_type, output, errors):
     errors.append((failure_type, sys.exc_info()))
 
 
-def run_tests(options, tests, name, failures, errors, skipped, import_errors):
+def run_tests(options, tests, name, failures, errors, skipped, import_errors,
+              layer=None):
     repeat = options.repeat or 1
     repeat_range = iter(range(repeat))
     ran = 0
@@ -371,7 +372,7 @@ def run_tests(options, tests, name, failures, errors, skipped, import_errors):
 
         if options.verbose > 0 or options.progress:
             output.info('  Running:')
-        result = TestResult(options, tests, layer_name=name)
+        result = TestResult(options, tests, layer_name=name, layer=layer)
 
         t = time.time()
 
@@ -489,7 +490,7 @@ def run_layer(options, layer_name, layer, tests, setup_layers,
         return 0
     else:
         return run_tests(options, tests, layer_name, failures, errors, skipped,
-                         import_errors)
+                         import_errors, layer=layer)
 
 
 class SetUpLayerFailure(unittest.TestCase):
@@ -916,13 +917,17 @@ def setup_layer(options, layer, setup_layers):
 
 class TestResult(unittest.TestResult):
 
-    def __init__(self, options, tests, layer_name=None):
+    def __init__(self, options, tests, layer_name=None, layer=None):
         unittest.TestResult.__init__(self)
         self.options = options
         # Calculate our list of relevant layers we need to call testSetUp
-        # and testTearDown on.
+        # and testTearDown on.  The layer that was set up is the one to use:
+        # looking it up by name finds another layer when layers of one stack
+        # share a name (classes made by a factory function).
+        if layer is None:
+            layer = layer_from_name(layer_name)
         layers = []
-        gather_layers(layer_from_name(layer_name), layers)
+        gather_layers(layer, layers)
         self.layers = order_by_bases(layers)
         count = 0
         for test in tests:
